@@ -115,6 +115,7 @@ pub struct Gen<'a> {
     subs: Vec<usize>, // labels of subroutines
     sub_bodies: Vec<Vec<Draft>>,
     stops: usize,
+    restarts: usize,
     planted: bool,
     depth_guard_used: bool,
     tron_on: bool,
@@ -201,6 +202,7 @@ impl<'a> Gen<'a> {
             subs: vec![],
             sub_bodies: vec![],
             stops: 0,
+            restarts: 0,
             planted: false,
             depth_guard_used: false,
             tron_on: false,
@@ -983,6 +985,28 @@ impl<'a> Gen<'a> {
                     stmts.push(self.simple());
                 }
                 out.push(Draft { label: None, stmts });
+            }
+            95 if self.cfg.input && !self.tron_on && self.restarts < 1 && !self.cfg.rnd => {
+                // the program restarts itself (RUN as a statement, possibly from inside loops and
+                // subroutines) depending on what the operator answers
+                self.restarts += 1;
+                let target = if self.rng.pct(30) { Some(Target::L(usize::MAX - 0)) } else { None };
+                out.push(Draft {
+                    label: None,
+                    stmts: vec![
+                        Stmt::Input {
+                            nocaps: false,
+                            prompt: Some("AGAIN".into()),
+                            targets: vec![LVal::scalar("R9%")],
+                        },
+                        Stmt::If {
+                            cond: Expr::bin(BinOp::Lt, Expr::var("R9%"), Expr::Int(1)),
+                            goto_form: false,
+                            then: Branch::Stmts(vec![Stmt::Run(target)]),
+                            els: None,
+                        },
+                    ],
+                });
             }
             _ => self.simple_line(out),
         }
